@@ -115,6 +115,8 @@ impl Default for OpOut {
 }
 
 pub struct History {
+    /// panics caught inside thread-local destructors (C07)
+    pub teardown_panics: Vec<String>,
     pub out: RunOut,
     pub ops: Vec<OpOut>,
     pub batches: Vec<Batch>,
@@ -156,7 +158,8 @@ pub fn accesses(op: &Op) -> Vec<Acc> {
         Op::CtxSpan { slot, ctx } => vec![Read(*slot), Excl(*ctx)],
         Op::CtxCurrent { ctx } => vec![Excl(*ctx)],
         Op::RootFromCtx { slot, ctx, .. } => vec![Excl(*slot), Read(*ctx)],
-        Op::Pop { into: Some(s) } => vec![Excl(*s)],
+        Op::Pop { into: Some(s) } | Op::Collect { into: Some(s) } => vec![Excl(*s)],
+        Op::UnwindScope { slot } | Op::ScopeBurst { slot, .. } => vec![Read(*slot)],
         Op::Push { slot, set } => vec![Read(*slot), Read(*set)],
         Op::ToRecords { set, .. } => vec![Read(*set)],
         Op::NewTask { task, span, .. } => {
@@ -656,7 +659,61 @@ pub fn exec_op(ctx: &mut ThreadCtx, idx: usize, op: OpRef, o: &Op, inner: &[Op])
             let recs = ls.to_span_records(SpanContext::new(TraceId(spec.trace_id), SpanId(spec.parent_span)));
             Ret::Records(recs.iter().map(Rec::from).collect())
         }
-        Op::NewTask { .. } | Op::Poll { .. } | Op::DropTask { .. } | Op::Twin { .. } | Op::TeardownCalls { .. } => {
+        Op::Collect { into } => {
+            if let Some(pos) = ctx.stack.iter().rposition(|h| matches!(h, LocalH::Guard(_) | LocalH::Coll(_))) {
+                match ctx.stack.remove(pos) {
+                    LocalH::Coll(c) => match into {
+                        Some(s) => {
+                            let set = c.collect();
+                            *slot_mut(&sh, *s) = SlotV::Set(set);
+                        }
+                        None => drop(c),
+                    },
+                    h => drop(h),
+                }
+            }
+            Ret::None
+        }
+        Op::UnwindScope { slot } => {
+            struct HarnessUnwind;
+            let sp = slot_span(&sh, *slot);
+            let name = span_name(case.str_seed, op);
+            let r = std::panic::catch_unwind(std::panic::AssertUnwindSafe(|| {
+                let _g = sp.set_local_parent();
+                let _l = LocalSpan::enter_with_local_parent(name);
+                std::panic::resume_unwind(Box::new(HarnessUnwind));
+            }));
+            if let Err(p) = r {
+                if !p.is::<HarnessUnwind>() {
+                    std::panic::resume_unwind(p);
+                }
+            }
+            Ret::None
+        }
+        Op::LocalBurst { n } => {
+            let name = span_name(case.str_seed, op);
+            for _ in 0..*n {
+                let s = LocalSpan::enter_with_local_parent(name.clone());
+                drop(s);
+            }
+            Ret::None
+        }
+        Op::ScopeBurst { slot, n } => {
+            let sp = slot_span(&sh, *slot);
+            let mut gs = Vec::with_capacity(*n as usize);
+            for _ in 0..*n {
+                gs.push(sp.set_local_parent());
+            }
+            while let Some(g) = gs.pop() {
+                drop(g);
+            }
+            Ret::None
+        }
+        Op::TeardownCalls { early } => {
+            crate::teardown::arm(*early, op);
+            Ret::None
+        }
+        Op::NewTask { .. } | Op::Poll { .. } | Op::DropTask { .. } | Op::Twin { .. } => {
             crate::tasks::exec_async(ctx, idx, op, o, inner)
         }
     }
@@ -794,6 +851,7 @@ pub fn run_case(case: &Case) -> History {
     let closure_calls = shared.closure_calls.lock().unwrap().clone();
     let tids = shared.tids.lock().unwrap().clone();
     History {
+        teardown_panics: crate::teardown::take_panics(),
         out,
         ops,
         batches,
